@@ -89,67 +89,67 @@ def r_partial_cmp(ctx, rule='R10.1'):
               'the accumulator does not start at Ordering::Equal')
     nxp = b.term_point(nx[0][0])
     # ---- loop stage: from the coordinate comparison to the next iteration / a return ------------------
+    # decided by case analysis over the 3 x 3 values of (accumulator, comparison): for each case, the feasible paths and what they do
     start = b.after(b.term_point(cbb))[0]
-    paths = M.enumerate_paths(b, start, stops=[nxp])
-    rows = []
-    for (edges, blocks, end) in paths:
+    loop_paths = []
+    for (edges, blocks, end) in M.enumerate_paths(b, start, stops=[nxp]):
         atoms = M.path_atoms(b, edges)
         if not M.consistent(atoms):
             continue
-        sa = _in_set(atoms, lambda t: t == acc)
-        sc = _in_set(atoms, lambda t: t == ct)
-        sa = set(ORD) if sa is None else sa
-        sc = set(ORD) if sc is None else sc
-        newacc = None
-        for (kind, pt, s) in M.path_effects(b, blocks, start, end):
-            if kind == 'assign' and s['place']['l'] == acc_local:
-                newacc = _ord_const(b.origin.rvalue(s['rv'], pt))
         if end == nxp:
-            out = ('continue', newacc)
+            loop_paths.append((atoms, 'continue', M.path_local_term(b, blocks, end, acc_local, start)))
         else:
-            rt = _path_ret(b, blocks, end)
-            out = ('return', 'None' if (isinstance(rt, tuple) and rt[0] == 'aggr' and rt[2] == 'None') else M.show(rt))
-        rows.append((sa, sc, out))
-    spec = {}
+            for (conds, leaf) in M.cases(_path_ret(b, blocks, end)):
+                loop_paths.append((list(atoms) + [a for c_ in conds for a in M.lit_atoms(c_)], 'return', leaf))
+    bad = []
     for x in ORD:
         for y in ORD:
+            env = [(lambda t: t == acc, x), (lambda t, ct=ct: t == ct, y)]
+            outs = set()
+            for (atoms, kind, term) in loop_paths:
+                if not _feasible(atoms, env):
+                    continue
+                if kind == 'continue':
+                    outs.add(('continue', _ord_eval(term, env)))
+                else:
+                    outs.add(('return', 'None' if term == M.MK_NONE else M.show(term)[:60]))
             if (x, y) in (('Less', 'Greater'), ('Greater', 'Less')):
-                spec[(x, y)] = ('return', 'None')
-            elif x == 'Equal' and y in ('Greater', 'Less'):
-                spec[(x, y)] = ('continue', y)
+                want = ('return', 'None')
+            elif x == 'Equal':
+                want = ('continue', y)
             else:
-                spec[(x, y)] = ('continue', None)
-    bad = _compare_table(rows, spec)
-    ctx.stats['paths'] += len(rows)
-    ctx.check(not bad, rule, 'loop-table', b, b.loc(cbb),
+                want = ('continue', x)
+            if outs != {want}:
+                bad.append(((x, y), 'got %s want %s' % (sorted(outs, key=repr), want)))
+    ctx.stats['paths'] += len(loop_paths)
+    ctx.check(not bad and bool(loop_paths), rule, 'loop-table', b, b.loc(cbb),
               'coordinate loop = product-order automaton (9 cases): Equal absorbs, opposite strict orders => None, otherwise keep',
               'the coordinate loop of partial_cmp deviates from the product-order automaton in case(s) %s' % bad[:4])
     # ---- value stage --------------------------------------------------------------------------------
     uvt = b.origin.call(uv[0][1], b.term_point(uv[0][0]))
     start = b.after(b.term_point(vbb))[0]
-    paths = M.enumerate_paths(b, start)
-    rows = []
-    for (edges, blocks, end) in paths:
+    val_paths = []
+    for (edges, blocks, end) in M.enumerate_paths(b, start):
         atoms = M.path_atoms(b, edges)
         if not M.consistent(atoms):
             continue
-        sa = _in_set(atoms, lambda t: t == acc)
-        sc = _in_set(atoms, lambda t: t == vt)
-        sa = set(ORD) if sa is None else sa
-        sc = set(ORD) if sc is None else sc
-        rows.append((sa, sc, _result_of(b, blocks, end, acc)))
-    spec = {}
+        for (conds, leaf) in M.cases(_path_ret(b, blocks, end)):
+            val_paths.append((list(atoms) + [a for c_ in conds for a in M.lit_atoms(c_)], leaf))
+    bad = []
     for x in ORD:
         for y in ORD:
+            env = [(lambda t: t == acc, x), (lambda t, vt=vt: t == vt, y)]
+            outs = set(_result_of(term, env) for (atoms, term) in val_paths if _feasible(atoms, env))
             if (x, y) in (('Less', 'Greater'), ('Greater', 'Less')):
-                spec[(x, y)] = 'None'
-            elif x == 'Equal' and y in ('Greater', 'Less'):
-                spec[(x, y)] = (y, True)
+                want = 'None'
+            elif x == 'Equal' and y != 'Equal':
+                want = (y, True)
             else:
-                spec[(x, y)] = ('acc', False)
-    bad = _compare_table(rows, spec)
-    ctx.stats['paths'] += len(rows)
-    ctx.check(not bad, rule, 'value-table', b, b.loc(vbb),
+                want = (x, False)
+            if outs != {want}:
+                bad.append(((x, y), 'got %s want %s' % (sorted(outs, key=repr), want)))
+    ctx.stats['paths'] += len(val_paths)
+    ctx.check(not bad and bool(val_paths), rule, 'value-table', b, b.loc(vbb),
               'value stage (9 cases): opposite orders => None; all coordinates equal and values differ => that order with only_val_diff; otherwise the coordinate order',
               'the value stage of partial_cmp deviates from the specification in case(s) %s' % bad[:4])
     ok, cut, bad_ = M.guarded(b, [b.term_point(vbb)], lambda atoms, lit: any(a[0] == 'T' and a[1] == uvt for a in atoms))
@@ -160,23 +160,93 @@ def r_partial_cmp(ctx, rule='R10.1'):
     good = bool(fe)
     for st in fe:
         for (edges, blocks, end) in M.enumerate_paths(b, st):
-            good = good and _result_of(b, blocks, end, acc, st) == ('acc', False)
+            for x in ORD:
+                env = [(lambda t: t == acc, x)]
+                for (conds, leaf) in M.cases(_path_ret(b, blocks, end)):
+                    if _feasible([a for c_ in conds for a in M.lit_atoms(c_)], env):
+                        good = good and _result_of(leaf, env) == (x, False)
     ctx.check(good, rule, 'no-value-exit', b, b.loc(uv[0][0]), 'without values the result is Some(coordinate order, only_val_diff = false)', 'the no-value exit does not return Some{ordering, only_val_diff: false}')
 
 
-def _result_of(b, blocks, end, acc, start=None):
-    rt = _path_ret(b, blocks, end)
-    if isinstance(rt, tuple) and rt[0] == 'aggr' and rt[2] == 'None':
+def _ord_eval(t, env):
+    """value (an Ordering name or a bool) of a term under `env` = [(term predicate, Ordering name)], None when it cannot be determined"""
+    for (pred, v) in env:
+        if pred(t):
+            return v
+    c = _ord_const(t)
+    if c is not None:
+        return c
+    if not isinstance(t, tuple) or not t:
+        return None
+    if t[0] == 'aggr' and t[2] is not None and not t[2].isdigit():
+        return t[2]          # an enum value: its variant name (what a discriminant test looks at)
+    if t[0] == 'const' and isinstance(t[1], bool):
+        return t[1]
+    if t[0] == 'cmp' and t[1] in ('Eq', 'Ne'):
+        a, b_ = _ord_eval(t[2], env), _ord_eval(t[3], env)
+        if a is None or b_ is None:
+            return None
+        return (a == b_) == (t[1] == 'Eq')
+    if t[0] == 'not':
+        a = _ord_eval(t[1], env)
+        return None if a is None else (not a)
+    if t[0] == 'bin' and t[1] in ('BitAnd', 'BitOr'):
+        a, b_ = _ord_eval(t[2], env), _ord_eval(t[3], env)
+        if t[1] == 'BitAnd':
+            return False if (a is False or b_ is False) else (True if (a is True and b_ is True) else None)
+        return True if (a is True or b_ is True) else (False if (a is False and b_ is False) else None)
+    if t[0] == 'ite':
+        c_ = _feasible(M.lit_atoms(t[1]), env, strict=True)
+        if c_ is None:
+            return None
+        return _ord_eval(t[2] if c_ else t[3], env)
+    return None
+
+
+def _feasible(atoms, env, strict=False):
+    """can the conjunction of `atoms` hold under `env`? Atoms that do not mention the case variables are ignored (strict: they make the
+    answer unknown = None)"""
+    names = {'<': 'Less', '=': 'Equal', '>': 'Greater'}
+    unknown = False
+    for a in atoms:
+        v = None
+        if a[0] == 'in':
+            x = _ord_eval(a[1], env)
+            v = None if x is None else (x in a[2])
+        elif a[0] in ('T', 'F'):
+            x = _ord_eval(a[1], env)
+            v = None if x is None else (x == (a[0] == 'T'))
+        elif a[0] == 'cmp':
+            # a test on the result of Ord::cmp(p, q) appears as a comparison atom on (p, q)
+            for (p_, q_, rel) in ((a[1], a[2], a[3]), (a[2], a[1], frozenset({'<': '>', '>': '<', '=': '='}[c] for c in a[3]))):
+                x = _ord_eval(('call', 'std::cmp::Ord::cmp', (p_, q_), None), env)
+                if x is not None:
+                    v = x in set(names[c] for c in rel)
+                    break
+            if v is None and a[3] in (frozenset('='), frozenset('<>')):
+                # == / != between two Ordering values
+                p_, q_ = _ord_eval(a[1], env), _ord_eval(a[2], env)
+                if p_ is not None and q_ is not None and not isinstance(p_, bool):
+                    v = (p_ == q_) == (a[3] == frozenset('='))
+        elif a[0] == 'const':
+            v = bool(a[1])
+        if v is False:
+            return False
+        if v is None:
+            unknown = True
+    if strict and unknown:
+        return None
+    return True
+
+
+def _result_of(rt, env):
+    if rt == M.MK_NONE:
         return 'None'
     if isinstance(rt, tuple) and rt[0] == 'aggr' and rt[2] == 'Some':
         inner = rt[3][0][1]
         if isinstance(inner, tuple) and inner[0] == 'aggr' and inner[1].endswith('DominanceCmpResult'):
             f = dict(inner[3])
-            o = _ord_const(f['ordering'])
-            if o is None and f['ordering'] == acc:
-                o = 'acc'
-            ovd = f['only_val_diff'][1] if M.is_const(f['only_val_diff']) else None
-            return (o, ovd)
+            return (_ord_eval(f['ordering'], env), _ord_eval(f['only_val_diff'], env))
     return M.show(rt)[:80]
 
 
@@ -221,12 +291,15 @@ def r_dom_cmp(ctx, rule='R10.2'):
                 shape = False
                 for bb_ in b.live_blocks():
                     t_ = b.term(bb_)
-                    if t_['k'] == 'call' and (t_.get('callee') or '').endswith('unwrap_or'):
-                        u = b.origin.call(t_, b.term_point(bb_))
-                        if M.is_call(u[2][0], 'find') and M.is_call(u[2][0][2][0], 'map') and isinstance(u[2][0][2][0][2][1], tuple) and u[2][0][2][0][2][1][:2] == ('closure', c.name) \
-                                and _ord_const(u[2][1]) == 'Equal':
-                            rng = [x for x in M.walk(u[2][0][2][0][2][0]) if isinstance(x, tuple) and x and x[0] == 'aggr' and x[1].endswith('Range')]
-                            pr = _closure_ret(ctx.F, u[2][0][2][1])
+                    if t_['k'] == 'call' and (t_.get('callee') or '').endswith(('unwrap_or', 'unwrap_or_else')):
+                        f_ = opt_fold(b.origin.call(t_, b.term_point(bb_)))     # normal form of find(..).unwrap_or(Equal)
+                        if f_ is None or f_[1] != opt_payload(f_[0]):
+                            continue
+                        fnd, dflt = f_[0], f_[2]
+                        if M.is_call(fnd, 'find') and M.is_call(fnd[2][0], 'map') and isinstance(fnd[2][0][2][1], tuple) and fnd[2][0][2][1][:2] == ('closure', c.name) \
+                                and _ord_const(dflt) == 'Equal':
+                            rng = [x for x in M.walk(fnd[2][0][2][0]) if isinstance(x, tuple) and x and x[0] == 'aggr' and x[1].endswith('Range')]
+                            pr = _closure_ret(ctx.F, fnd[2][1])
                             neq = isinstance(pr, tuple) and pr[0] == 'cmp' and pr[1] == 'Ne' and any(_ord_const(x) == 'Equal' for x in pr[2:4]) and any(M.is_param(x, index=1) for x in pr[2:4])
                             shape = bool(rng) and M.is_const(dict(rng[0][3])['start'], 0) and M.is_call(dict(rng[0][3])['end'], 'Dominance::nb_dimensions') and neq
                 ctx.check(okc and shape, rule, 'coordinate-iterator-form', c, c.loc(cbb),
@@ -403,31 +476,31 @@ def r_dom_store(ctx):
     thv = thr_w[0][1] if thr_w else None
     pushes = [b.term_point(bb) for (bb, t) in b.calls_to('push')]
     retain_pts = [b.term_point(bb) for (bb, t) in b.calls_to('retain')]
-    # the result returned on the Occupied arm: dominated = the flag the closure sets; threshold = None iff not dominated
-    res = None
-    for (bb_, i_, s_) in aggr_assigns(b, 'DominanceCheckResult'):
-        if retain_pts and (bb_, i_) in b.reach(b.after(retain_pts[0])):
-            res = b.origin.rvalue(s_['rv'], (bb_, i_))
-    good = good and res is not None
+    # the result returned on the Occupied arm, case by case: dominated => (true, the accumulated threshold); not dominated => (false, None)
+    after_scan = b.after(retain_pts[0]) if retain_pts else []
+    ncase = 0
+    for st in after_scan:
+        for (edges, blocks, end) in M.enumerate_paths(b, st):
+            atoms = M.path_atoms(b, edges)
+            if not M.consistent(atoms):
+                continue
+            for (conds, leaf) in M.cases(M.lift_ite(_path_ret(b, blocks, end))):
+                at = list(atoms) + [a_ for c_ in conds for a_ in M.lit_atoms(c_)]
+                if not M.consistent(at):
+                    continue
+                truth = [a_[0] for a_ in at if a_[0] in 'TF' and a_[1] == dv]
+                f = dict(leaf[3]) if isinstance(leaf, tuple) and leaf[0] == 'aggr' and leaf[1].endswith('DominanceCheckResult') else None
+                ncase += 1
+                if f is None or len(set(truth)) != 1:
+                    good = False
+                elif truth[0] == 'T':
+                    good = good and (f['dominated'] == dv or M.is_const(f['dominated'], True)) and f['threshold'] == thv
+                else:
+                    good = good and (f['dominated'] == dv or M.is_const(f['dominated'], False)) and f['threshold'] == M.MK_NONE
+    good = good and ncase >= 2
     if good:
-        f = dict(res[3])
-        good = f.get('dominated') == dv
-        th_ok = False
-        cs = M.cases(f.get('threshold'))
-        if len(cs) == 2:
-            none_case = [(c_, v_) for (c_, v_) in cs if isinstance(v_, tuple) and v_[0] == 'aggr' and v_[2] == 'None']
-            acc_case = [(c_, v_) for (c_, v_) in cs if v_ == thv]
-            if len(none_case) == 1 and len(acc_case) == 1:
-                def asserts(conds, what):
-                    out = []
-                    for c_ in conds:
-                        out.extend(M.lit_atoms(c_))
-                    return what in [(a_[0], a_[1]) for a_ in out if a_[0] in 'TF']
-                th_ok = asserts(none_case[0][0], ('F', dv)) and asserts(acc_case[0][0], ('T', dv))
-        good = good and th_ok
         # insertion iff not dominated
         nd = lambda atoms, lit: any(a_[0] == 'F' and a_[1] == dv for a_ in atoms)
-        after_scan = b.after(retain_pts[0]) if retain_pts else []
         ps_ = [p_ for p_ in pushes if retain_pts and p_ in b.reach(after_scan)]
         ok1, cut_, _ = M.guarded(b, ps_, nd, starts=after_scan)
         ok2 = bool(ps_) and bool(cut_)
@@ -449,40 +522,35 @@ def r_dom_store(ctx):
     uvp = lambda atoms, lit: any(a_[0] == 'T' and M.is_call(a_[1], 'Dominance::use_value') for a_ in atoms)
     good = len(thr_w) >= 1
     forms = set()
+    ovd = lambda t: M.is_field(t, 'only_val_diff', 'DominanceCmpResult')
     for (pt, d, v) in thr_w:
-        items = v[1] if isinstance(v, tuple) and v[0] == 'min' else ()
-        oth = [x for x in items if x != d]
-        if d not in items or len(oth) != 1 or not (isinstance(oth[0], tuple) and oth[0][0] == 'aggr' and oth[0][2] == 'Some'):
-            good = False
-            continue
-        inner = oth[0][3][0][1]
-        ovd = lambda t: M.is_field(t, 'only_val_diff', 'DominanceCmpResult')
-        if isinstance(inner, tuple) and inner[0] == 'ite':
-            # Some(if only_val_diff { v - 1 } else { v }) : both forms in one write
-            cs = M.cases(inner)
-            okc = len(cs) == 2
-            for (conds, leaf) in cs:
-                at = [a_ for c_ in conds for a_ in M.lit_atoms(c_)]
-                if other(leaf, 'value'):
+        # case by case: every value written is either the threshold itself (no change) or min(threshold, Some(X)) with
+        # X = stored.value (only_val_diff false) | stored.value - 1 (only_val_diff true), and then use_value holds and the verdict is Less
+        okp2, cutp, _ = M.guarded(c, [pt], uvp)
+        okl, _, _ = M.guarded(c, [pt], lambda atoms, lit: any(a_[0] == 'in' and a_[2] == frozenset(['Less']) for a_ in atoms))
+        okt, _, _ = M.guarded(c, [pt], lambda atoms, lit: any(a_[0] == 'T' and ovd(a_[1]) for a_ in atoms))
+        okf, _, _ = M.guarded(c, [pt], lambda atoms, lit: any(a_[0] == 'F' and ovd(a_[1]) for a_ in atoms))
+        for (conds, leaf) in M.cases(v):
+            if leaf == d:
+                continue
+            at = [a_ for c_ in conds for a_ in M.lit_atoms(c_)]
+            items = leaf[1] if isinstance(leaf, tuple) and leaf[0] == 'min' else ()
+            oth = [x for x in items if x != d]
+            if d not in items or len(oth) != 1 or not (isinstance(oth[0], tuple) and oth[0][0] == 'aggr' and oth[0][2] == 'Some'):
+                good = False
+                continue
+            uses = okp2 or any(a_[0] == 'T' and M.is_call(a_[1], 'Dominance::use_value') for a_ in at)
+            for (conds2, inner) in M.cases(oth[0][3][0][1]):
+                at2 = at + [a_ for c_ in conds2 for a_ in M.lit_atoms(c_)]
+                if other(inner, 'value'):
                     forms.add('value')
-                    okc = okc and any(a_[0] == 'F' and ovd(a_[1]) for a_ in at)
-                elif isinstance(leaf, tuple) and leaf[0] == 'sub' and other(leaf[1], 'value') and M.is_const(leaf[2], 1):
+                    ok = okf or any(a_[0] == 'F' and ovd(a_[1]) for a_ in at2)
+                elif isinstance(inner, tuple) and inner[0] == 'sub' and other(inner[1], 'value') and M.is_const(inner[2], 1):
                     forms.add('value-1')
-                    okc = okc and any(a_[0] == 'T' and ovd(a_[1]) for a_ in at)
+                    ok = okt or any(a_[0] == 'T' and ovd(a_[1]) for a_ in at2)
                 else:
-                    okc = False
-            ok = okc
-        elif other(inner, 'value'):
-            forms.add('value')
-            ok, cut, bad_ = M.guarded(c, [pt], lambda atoms, lit: any(a_[0] == 'F' and ovd(a_[1]) for a_ in atoms))
-        elif isinstance(inner, tuple) and inner[0] == 'sub' and other(inner[1], 'value') and M.is_const(inner[2], 1):
-            forms.add('value-1')
-            ok, cut, bad_ = M.guarded(c, [pt], lambda atoms, lit: any(a_[0] == 'T' and ovd(a_[1]) for a_ in atoms))
-        else:
-            ok = False
-        ok2, _, _ = M.guarded(c, [pt], uvp)
-        ok3, _, _ = M.guarded(c, [pt], lambda atoms, lit: any(a_[0] == 'in' and a_[2] == frozenset(['Less']) for a_ in atoms))
-        good = good and ok and ok2 and ok3
+                    ok = False
+                good = good and ok and uses and okl
     ctx.check(good and forms == {'value', 'value-1'}, 'R10.4', 'threshold-terms', c, c.loc(pbb),
               'threshold = min over DOMINATORS of stored.value (stored.value - 1 when only the value differs), only when values are used',
               'the threshold accumulated by the retain closure is not min(threshold, Some(dominator.value [- 1 iff only_val_diff])) on the dominated branch with use_value')
@@ -515,25 +583,52 @@ def r_cache_store(ctx):
     lay = lambda r, i: isinstance(r, tuple) and r[0] == 'index' and M.is_field(r[1], 'thresholds_by_layer', 'SimpleCache') and M.is_param(r[2], index=i)
     ctx.check(lay(ea[0], 2) and M.is_param(ea[1], index=1), 'R18.c', 'cache/update-key', up, up.loc(bb), 'update addresses thresholds_by_layer[depth] at key state', 'update addresses %s / %s' % (M.show(ea[0]), M.show(ea[1])))
     new = lambda x: isinstance(x, tuple) and x[0] == 'aggr' and x[1].endswith('common::Threshold') and M.is_param(dict(x[3])['value'], index=3) and M.is_param(dict(x[3])['explored'], index=4)
+    entt = up.origin.call(t, up.term_point(bb))
     am = up.calls_to('and_modify')
     oi = up.calls_to('or_insert', 'or_insert_with')
-    good = len(am) == 1 and len(oi) == 1
-    if good:
-        oia = [up.origin.operand(x, up.term_point(oi[0][0])) for x in oi[0][1]['args']]
-        val = oia[1]
-        if isinstance(val, tuple) and val and val[0] == 'closure':
-            val = _closure_ret(ctx.F, val)
-        good = val is not None and new(val) and M.contains(oia[0], lambda x: M.is_call(x, 'and_modify'))
-    ctx.check(good, 'R18.b', 'cache/vacant-inserts-new', up, up.loc(0), 'a vacant key receives Threshold{value, explored} built from the parameters', 'or_insert does not store Threshold{value, explored} of the parameters after and_modify')
-    mc = [c for c in unit[1:]]
-    good = False
-    for c in mc:
-        for (pt, d, v, s) in writes(c):
-            if M.is_param(d, index=1) and d[1] == c.name:
-                items = v[1] if isinstance(v, tuple) and v[0] == 'max' else ()
-                good = len(items) == 2 and any(new(x) for x in items) and any(x == d for x in items)
+    vi = [(b2, t2) for (b2, t2) in up.calls_to('insert') if up.origin.operand(t2['args'][0], up.term_point(b2)) == M.simplify_field(M.simplify_variant(entt, 'Vacant'), '0', None)]
+    occ_t = M.simplify_field(M.simplify_variant(entt, 'Occupied'), '0', None)
+    rets = ret_points(up)
+    def arm(name_):
+        return [(tb, 0) for bbk in up.live_blocks() if up.term(bbk)['k'] == 'switch' for (tb, lab) in up.succ(bbk)
+                if (lambda lit: lit and lit[0] == 'in' and lit[1] == entt and lit[2] == frozenset([name_]))(M.edge_literal(up, bbk, lab))]
+    if am or oi:
+        # spelling 1: entry(k).and_modify(|e| *e = max(new, *e)).or_insert(new)
+        good = len(am) == 1 and len(oi) == 1 and not vi
+        if good:
+            oia = [up.origin.operand(x, up.term_point(oi[0][0])) for x in oi[0][1]['args']]
+            val = oia[1]
+            if isinstance(val, tuple) and val and val[0] == 'closure':
+                val = _closure_ret(ctx.F, val)
+            good = val is not None and new(val) and M.contains(oia[0], lambda x: M.is_call(x, 'and_modify')) and M.contains(oia[0], lambda x: x == entt)
+        ctx.check(good, 'R18.b', 'cache/vacant-inserts-new', up, up.loc(0), 'a vacant key receives Threshold{value, explored} built from the parameters', 'or_insert does not store Threshold{value, explored} of the parameters after and_modify')
+        mc = [c for c in unit[1:]]
+        good = False
+        for c in mc:
+            for (pt, d, v, s) in writes(c):
+                if M.is_param(d, index=1) and d[1] == c.name:
+                    items = v[1] if isinstance(v, tuple) and v[0] == 'max' else ()
+                    good = len(items) == 2 and any(new(x) for x in items) and any(x == d for x in items)
+    else:
+        # spelling 2: match entry(k) { Occupied(e) => *e.get_mut() = max(new, *e.get_mut()),  Vacant(e) => e.insert(new) }
+        vac, occ = arm('Vacant'), arm('Occupied')
+        good = len(vi) == 1 and bool(vac)
+        if good:
+            va = [up.origin.operand(x, up.term_point(vi[0][0])) for x in vi[0][1]['args']]
+            r = up.reach(vac, avoid=[up.term_point(vi[0][0])])
+            good = new(va[1]) and not any(p in r for p in rets)
+        ctx.check(good, 'R18.b', 'cache/vacant-inserts-new', up, up.loc(0), 'a vacant key receives Threshold{value, explored} built from the parameters (on every path of the Vacant arm)',
+                  'the Vacant arm does not store Threshold{value, explored} of the parameters on every path')
+        cur = lambda x: M.is_call(x, 'get_mut', 'get', 'into_ref') and x[2][0] == occ_t
+        ws = [(pt, d, v) for (pt, d, v, s) in writes(up) if cur(d)]
+        good = len(ws) == 1 and bool(occ)
+        if good:
+            (pt, d, v) = ws[0]
+            items = v[1] if isinstance(v, tuple) and v[0] == 'max' else ()
+            r = up.reach(occ, avoid=[pt])
+            good = len(items) == 2 and any(new(x) for x in items) and any(cur(x) for x in items) and not any(p in r for p in rets)
     ctx.check(good, 'R18.b', 'cache/update-is-max', up, up.loc(0), 'an occupied key is replaced by Ord::max(new, old) in (value, explored) order: a stored threshold never decreases',
-              'the occupied-key update is not *e = max(Threshold{value, explored}, *e)')
+              'the occupied-key update is not *e = max(Threshold{value, explored}, *e) on every path of the occupied case')
     # T11: Threshold derives Ord/PartialOrd with field order (value, explored)
     name, info = ctx.F.adt('common::Threshold')
     fields = [f[0] for f in info['variants'][0]['fields']] if info else []
@@ -545,7 +640,12 @@ def r_cache_store(ctx):
     # get_threshold
     g = ctx.body(SC, 'get_threshold', trait='Cache')
     rt = _ret_term(g)
-    good = M.is_call(rt, 'get') and lay(rt[2][0], 2) and M.is_param(rt[2][1], index=1)
+    # the stored value copied out: get(..).as_deref().copied()  |  match get(..) { Some(r) => Some(*r.value() | *r), None => None }
+    om = opt_map(rt)
+    src = rt
+    if om is not None and (om[1] == opt_payload(om[0]) or (M.is_call(om[1], 'value') and om[1][2][0] == opt_payload(om[0]))):
+        src = om[0]
+    good = M.is_call(src, 'get') and lay(src[2][0], 2) and M.is_param(src[2][1], index=1)
     n_acc = len([1 for (bb_, t_) in g.calls() if (t_.get('self_ty') or '').startswith('dashmap::DashMap')])
     ctx.check(good and n_acc == 1, 'R18.c', 'cache/get', g, g.loc(0), 'get_threshold(s, d) copies the value stored in thresholds_by_layer[d] at s out of the map (one access, no guard escapes)',
               'get_threshold returns %s' % M.show(rt))
